@@ -26,6 +26,7 @@ EXPLANATION = (
     "exactly on tuples of the relation (B = A + 1; C = A + B), each generating mode computes the free argument so that the relation holds. "
     "A4 (error conversion) is decided under C27/E4. Numeric results for all operands and float formatting are value-level and not decided."
     " Added after seed round 6: A10 arg/3 folded for N = 0..3 on a term of arity 2: positions 1..arity select args[N-1], everything else fails."
+    " Added after seed round 7: A10 also requires that arg/3 hands back the term with the unified value in place; A11 functor/3 constructs over distinct fresh variables; A12 no function of the builtin / unification / extern modules writes into a mutable default parameter (positive example matched on every run)."
 )
 TECHNIQUE = "static analysis: documentation/table agreement, abstract operator semantics vs frozen Prolog table, call-mode table consistency"
 LEVEL_TEXT = EXPLANATION
